@@ -465,10 +465,19 @@ func DefaultPanic(kind string) {
 }
 
 var (
-	PanicErr     = errors.New("panic-error-value")
-	PanicConnErr = connect.NewError(connect.CodeAborted, errors.New("panic-connect-error"))
-	PanicPtr     = &struct{ B string }{B: "ptr"}
+	PanicErr       = errors.New("panic-error-value")
+	PanicConnErr   = connect.NewError(connect.CodeAborted, errors.New("panic-connect-error"))
+	PanicPtr       = &struct{ B string }{B: "ptr"}
+	PanicWrapAbort = fmt.Errorf("wrapped: %w", http.ErrAbortHandler)
 )
+
+// runtimeError returns a genuine runtime.Error value (nil-map write).
+func runtimeError() (r any) {
+	defer func() { r = recover() }()
+	var m map[string]int
+	m["x"] = 1
+	return nil
+}
 
 // PanicValue returns the panic value for a kind name.
 func PanicValue(kind string) any {
@@ -490,7 +499,9 @@ func PanicValue(kind string) any {
 	case "abort":
 		return http.ErrAbortHandler
 	case "wrapabort":
-		return fmt.Errorf("wrapped: %w", http.ErrAbortHandler)
+		return PanicWrapAbort
+	case "runtime":
+		return runtimeError()
 	}
 	return "panic-" + kind
 }
